@@ -30,6 +30,7 @@ func checkC08(c *core.Ctx) error {
 	c.Rule("C08.R2b", "reductions over containers do not write the receiver before the last container element is read (the receiver may be an element of the operand)", 50)
 	c.Rule("C08.R3", "two-argument combinators: allocation for the result does not discard derivative storage of an operand that aliases the receiver", 8)
 	c.Rule("C08.R4", "cross-index container operations (MdotM, MdotV, VdotM, Outer and twins): every receiver/operand alias pattern is rejected by a panic that dominates the first write, or the schedule buffers every element still to be read", 30)
+	checkStorageLocation(c)
 	pkg := c.Root
 	for _, T := range magicTypes {
 		checkCombinatorSchedule(c, pkg, T)
@@ -488,4 +489,51 @@ var _ = types.ExprString
 
 func checkContainerAlias(c *core.Ctx, pkg *packages.Package) {
 	checkContainerAliasImpl(c, pkg)
+}
+
+// checkStorageLocation (C08.R5): the alias tests of the cross-index operations compare storageLocation() of receiver and
+// operands. The test is sound only if every view of one backing storage reports the same location, i.e. the location is
+// taken from cell 0 of the storage itself and not from the view's own origin (index(0,0), offsets): a row slice that
+// starts below the first row would otherwise not be recognised as sharing storage with its parent.
+func checkStorageLocation(c *core.Ctx) {
+	c.Rule("C08.R5", "storageLocation() identifies the backing storage, not the view: it is taken from cell 0 of the storage and uses neither index() nor the view's offsets", 18)
+	pkg := c.Root
+	info := pkg.TypesInfo
+	core.EachFunc(pkg, func(_ *ast.File, fd *ast.FuncDecl) {
+		if fd.Name.Name != "storageLocation" || fd.Recv == nil {
+			return
+		}
+		cons := c.FuncName(pkg, fd)
+		bad := ""
+		zeroCell := false
+		ast.Inspect(fd.Body, func(x ast.Node) bool {
+			switch v := x.(type) {
+			case *ast.IndexExpr:
+				if bl, ok := ast.Unparen(v.Index).(*ast.BasicLit); ok && bl.Value == "0" {
+					zeroCell = true
+				} else {
+					bad = "indexes the storage with " + exprStr(v.Index)
+				}
+			case *ast.CallExpr:
+				nm := calleeName(v)
+				if nm == "index" {
+					bad = "uses index()"
+				}
+				if (nm == "AT" || nm == "At" || nm == "ConstAt") && len(v.Args) == 1 {
+					if bl, ok := ast.Unparen(v.Args[0]).(*ast.BasicLit); ok && bl.Value == "0" {
+						zeroCell = true
+					} else {
+						bad = "addresses element " + exprStr(v.Args[0])
+					}
+				}
+			case *ast.SelectorExpr:
+				if f, ok := info.Uses[v.Sel].(*types.Var); ok && f.IsField() && (strings.Contains(v.Sel.Name, "Offset") || strings.Contains(v.Sel.Name, "Max") || v.Sel.Name == "transposed") {
+					bad = "depends on the view field " + v.Sel.Name
+				}
+			}
+			return true
+		})
+		c.Check(bad == "" && zeroCell, "C08.R5", cons, "location of cell 0 of the backing storage", fd.Pos(),
+			"storageLocation "+bad+": two views of the same storage can report different locations, so the alias tests of MdotM/MdotV/VdotM/Outer miss a receiver that shares storage with an operand and the operand is overwritten while it is still being read")
+	})
 }
